@@ -272,6 +272,9 @@ func (rd *remoteDelivery) connectionForDomain(ctx context.Context, domain string
 	}
 
 	if err := conn.Mail(ctx, rd.mailFrom, rd.msgMeta.SMTPOpts); err != nil {
+		// The connection is not added to rd.connections, so Close will not
+		// release the destination limit for it.
+		rd.rt.limits.ReleaseDest(domain)
 		conn.Close()
 		return nil, err
 	}
